@@ -39,6 +39,7 @@ var Prop = &engine.Prop{
 		{Name: "sched", Quick: 12000, Thorough: 800000, Fn: schedCase},
 		{Name: "stress", Quick: 16, Thorough: 960, Repeat: 20, Fn: stressCase},
 		{Name: "many-holders", Quick: 24, Thorough: 480, Fn: manyHoldersCase},
+		{Name: "many-keys", Quick: 60, Thorough: 2400, Fn: manyKeysCase},
 	},
 	Floors: map[string]int64{
 		"pending_observations": 500,
@@ -75,8 +76,12 @@ type anyLocker struct {
 
 // mixedKey maps model key k to an interface{} key whose dynamic type depends on k: model keys
 // 0..10 are the number 0 in eleven types, 11..21 the number 1, 22.. the "all ones" pattern
-// (-1 / MaxUint). As interface{} values they are all different keys.
+// (-1 / MaxUint); model keys from 33 on are plain ints. As interface{} values they are all
+// different keys.
 func mixedKey(k int) interface{} {
+	if k >= 33 {
+		return k // beyond the 33 typed keys: plain ints (different from 0, 1, -1)
+	}
 	v := k / 11
 	ones := v >= 2
 	switch k % 11 {
@@ -806,4 +811,106 @@ func manyHoldersCase(k *engine.Case) {
 		k.Fail("residue", "everything released, but the locker keeps %d per-key entrie(s)", e)
 	}
 	k.Count("many_holder_rounds", 1)
+}
+
+// manyKeysCase: a burst of more than a thousand keys held at the same time and released again
+// while one hot key stays held. However the locker manages its table across such a burst, the
+// hot key stays held: a conflicting request for it waits, a compatible one is admitted, other
+// keys stay independent, and when everything is released nothing is kept.
+func manyKeysCase(k *engine.Case) {
+	r := k.R
+	l := newLocker(r)
+	n := 1025 + r.Intn(3000)
+	hotWrite := r.Intn(3) == 0
+	multi := l.Multi() && r.Intn(2) == 0
+	const hot = 0
+	k.Logf("locker=%s: hot key held (write=%v), burst of %d other keys locked%s and released", l.Name(), hotWrite, n, map[bool]string{true: " (multi-key calls)", false: ""}[multi])
+	k.Nontrivial()
+	k.C.Max("keys_held_at_once", int64(n+1))
+	d := engine.NewDriver(Q, k)
+	if hotWrite {
+		l.Lock(hot)
+	} else {
+		l.RLock(hot)
+	}
+	burst := func(write bool) bool {
+		if multi {
+			for from := 1; from <= n; from += 400 {
+				to := from + 400
+				if to > n+1 {
+					to = n + 1
+				}
+				ks := make([]int, 0, to-from)
+				for i := from; i < to; i++ {
+					ks = append(ks, i)
+				}
+				if write {
+					l.Locks(ks)
+					defer l.Unlocks(ks)
+				} else {
+					l.RLocks(ks)
+					defer l.RUnlocks(ks)
+				}
+			}
+		} else {
+			for i := 1; i <= n; i++ {
+				if write {
+					l.Lock(i)
+					defer l.Unlock(i)
+				} else {
+					l.RLock(i)
+					defer l.RUnlock(i)
+				}
+			}
+		}
+		if e := l.Entries(); e != n+1 {
+			k.Fail("residue", "%d keys are held at once but the locker reports %d per-key entries", n+1, e)
+			return false
+		}
+		return true
+	}
+	for round, rounds := 0, 1+r.Intn(2); round < rounds; round++ {
+		if !burst(r.Intn(3) > 0) {
+			return
+		}
+		if e := l.Entries(); e != 1 {
+			k.Fail("residue", "the burst of %d keys was released, only the hot key is held, but the locker keeps %d per-key entries", n, e)
+			return
+		}
+	}
+	// the hot key is still held
+	w := d.Spawn("Lock(hot)", func() any { l.Lock(hot); return nil })
+	if !d.Quiesce() {
+		return
+	}
+	if w.Done() {
+		k.Fail("exclusion", "key %d has been held (write=%v) since before a burst of %d other keys was locked and released; a writer asking for it afterwards was admitted beside the holder", hot, hotWrite, n)
+		return
+	}
+	other := d.Spawn("Lock(other key)", func() any { l.Lock(n + 7); l.Unlock(n + 7); return nil })
+	if !d.Quiesce() {
+		return
+	}
+	if !other.Done() {
+		k.Fail("independence", "a lock on an unrelated key is blocked while the hot key has a holder and a waiting writer")
+		return
+	}
+	if hotWrite {
+		l.Unlock(hot)
+	} else {
+		l.RUnlock(hot)
+	}
+	if !d.Quiesce() {
+		return
+	}
+	if !w.Done() {
+		k.Fail("deadlock", "the hot key was released but the waiting writer is still blocked: %v", Q.Describe())
+		return
+	}
+	l.Unlock(hot)
+	d.Join()
+	if e := l.Entries(); e != 0 {
+		k.Fail("residue", "everything released, but the locker keeps %d per-key entrie(s)", e)
+	}
+	k.Count("many_keys_rounds", 1)
 }
